@@ -135,6 +135,7 @@ def mkrun(ir, route, sealed=False, budget_s=120, loop_bound=6, max_paths=6000, c
     jose.install(H)
     for k, v in STORAGE.items(): H.stub(k, v)
     if checkauth == 'stub': H.stub(gate.CHECKAUTH, gate.st_checkauth_any(ir))
+    else: H.ex.stubs.pop(f'(*{M}.RuntimeState).getAuthInfoFromAuthJWT', None)
     H.stub(f'{M}.genRandomString', st_rand_string)
     H.stub(f'{M}.publicToPreferedJoseSigAlgo', st_sig_algo)
     H.stub_pat(r'^crypto\.Signer\.Public$|\(dyn:mainSigner\)\.Public$|Signer\)\.Public$', st_signer_public)
